@@ -3,11 +3,28 @@
 //
 //	offer(s,t)    StartReadCollection of a fresh one-shard collection whose source vchannel lives on pchannel s
 //	              and whose downstream vchannel lives on pchannel t (the fake downstream catalog says so)
+//	offerdropped(s,t)  the same with a collection whose source state is CollectionDropped / CollectionDropping (dropped
+//	              upstream while cdc was away) and which still exists downstream
 //	fwdcheck(v)   the forwardChannel goroutine of v, parked by the verif gate in front of its critical section,
 //	              is released and runs until it blocks again (in the send, or it returns)
 //	handoff(v,k)  a waitChannel goroutine that has received v and is parked by the verif gate in front of its
 //	              critical section is released; WHICH waiter received v is decided by the Go runtime, the event
 //	              logs the real one
+//
+//	offerstart(c,s,t)  the same StartReadCollection call, but in a goroutine of its own (call id c) and with the mq
+//	              connection check of its startReadChannel held up (pfake.Factory.ConsumeGate = a slow broker): after
+//	              the step the call is parked in CheckConnection, or queued on the manager's channel lock behind
+//	              another call, or - when the channel's handler exists - it has returned
+//	connect(c)    the connection check of call c returns; the call runs on (commit) until it returns; calls queued
+//	              behind it move up
+//	acquire(c)    observation only (the model's "a queued call got the lock"; on the code that happened in the step
+//	              that released the lock)
+//	settle(c)     appended by the driver at the end of a plan for every call still in flight, one at a time
+//	              (smallest id first): its connection check returns - every call returns in the end
+//	Every event lists the calls that returned during the step (ret) and those still in flight (fly).  While a
+//	parked call holds the channel lock the manager's state cannot be read through reader.VerifChannelState; the
+//	mapping table is then read through the pointer obtained at init (all repository goroutines are parked) and the
+//	list of waiting handlers is the previous one (nothing can change it under the lock); the event says locked.
 //
 // After every step the driver waits for quiescence of all repository goroutines and dumps the assignment through
 // the public API of the manager's own util.ChannelMapping (reader.VerifChannelState, read-only): all pairs
@@ -19,7 +36,10 @@ import (
 	"context"
 	"fmt"
 	"os"
+	"runtime"
 	"sort"
+	"strconv"
+	"strings"
 	"sync"
 	"sync/atomic"
 	"time"
@@ -110,6 +130,227 @@ func (g *gates) abort() {
 	}
 }
 
+// ---- concurrent StartReadCollection calls
+
+const repoPath = "github.com/zilliztech/milvus-cdc/"
+
+// goid: id of the calling goroutine (first line of its stack: "goroutine N [running]:")
+func goid() int64 {
+	var buf [64]byte
+	n := runtime.Stack(buf[:], false)
+	f := strings.Fields(string(buf[:n]))
+	if len(f) < 2 {
+		return -1
+	}
+	id, err := strconv.ParseInt(f[1], 10, 64)
+	if err != nil {
+		return -1
+	}
+	return id
+}
+
+// where reports what goroutine gid is doing: "" = it does not exist or is not inside repository code,
+// otherwise its scheduler state ("chan receive", "sync.RWMutex.Lock", "running", ...)
+func where(gid int64) string {
+	buf := make([]byte, 1<<20)
+	n := runtime.Stack(buf, true)
+	for n == len(buf) {
+		buf = make([]byte, 2*len(buf))
+		n = runtime.Stack(buf, true)
+	}
+	head := fmt.Sprintf("goroutine %d [", gid)
+	for _, g := range strings.Split(string(buf[:n]), "\n\n") {
+		if !strings.HasPrefix(g, head) {
+			continue
+		}
+		if !strings.Contains(g, repoPath) {
+			return ""
+		}
+		st := g[len(head):]
+		if i := strings.IndexAny(st, ",]"); i >= 0 {
+			st = st[:i]
+		}
+		return st
+	}
+	return ""
+}
+
+type call struct {
+	id    int
+	s, t  string
+	gid   int64
+	phase int32 // 1 = StartReadCollection about to be called / running, 2 = returned
+	err   error
+	gate  chan struct{} // non-nil while the call is parked in its connection check
+}
+
+type flights struct {
+	mu      sync.Mutex
+	calls   []*call // in flight, in the order of issue
+	freeRun bool
+}
+
+// consumeGate is installed as pfake.Factory.ConsumeGate: the connection check of a call issued by offerstart parks here
+func (f *flights) consumeGate([]string) {
+	gid := goid()
+	f.mu.Lock()
+	var c *call
+	for _, x := range f.calls {
+		if x.gid == gid {
+			c = x
+		}
+	}
+	if c == nil || f.freeRun {
+		f.mu.Unlock()
+		return
+	}
+	ch := make(chan struct{})
+	c.gate = ch
+	f.mu.Unlock()
+	<-ch
+}
+
+func (f *flights) release(c *call) bool {
+	f.mu.Lock()
+	ch := c.gate
+	c.gate = nil
+	f.mu.Unlock()
+	if ch == nil {
+		return false
+	}
+	close(ch)
+	return true
+}
+
+func (f *flights) get(id int) *call {
+	f.mu.Lock()
+	defer f.mu.Unlock()
+	var r *call
+	for _, c := range f.calls {
+		if c.id == id && (r == nil || (r.gate == nil && c.gate != nil)) {
+			r = c
+		}
+	}
+	return r
+}
+
+func (f *flights) n() int {
+	f.mu.Lock()
+	defer f.mu.Unlock()
+	return len(f.calls)
+}
+
+// definite: every call in flight has returned, is parked in its connection check, or is inside repository code
+// (then WaitQuiescent speaks for it)
+func (f *flights) definite() bool {
+	f.mu.Lock()
+	var ask []int64
+	for _, c := range f.calls {
+		if atomic.LoadInt32(&c.phase) != 2 && c.gate == nil {
+			ask = append(ask, atomic.LoadInt64(&c.gid))
+		}
+	}
+	f.mu.Unlock()
+	for _, gid := range ask {
+		if where(gid) == "" {
+			return false
+		}
+	}
+	return true
+}
+
+// settled waits until all repository goroutines are parked and every call in flight is in a definite state
+func (f *flights) settled(timeout time.Duration) error {
+	deadline := time.Now().Add(timeout)
+	for {
+		if f.definite() {
+			if err := pfake.WaitQuiescent(timeout); err != nil {
+				return err
+			}
+			if f.definite() {
+				return nil
+			}
+		}
+		if time.Now().After(deadline) {
+			return fmt.Errorf("%w: a StartReadCollection call neither returned nor blocked", pfake.ErrNotQuiescent)
+		}
+		time.Sleep(50 * time.Microsecond)
+	}
+}
+
+// reap removes the calls that have returned and reports them; fly = the calls still in flight
+func (f *flights) reap() (ret, fly []hx.Event) {
+	f.mu.Lock()
+	defer f.mu.Unlock()
+	ret, fly = []hx.Event{}, []hx.Event{}
+	keep := f.calls[:0]
+	for _, c := range f.calls {
+		if atomic.LoadInt32(&c.phase) == 2 {
+			ret = append(ret, hx.Event{"c": c.id, "s": c.s, "t": c.t, "err": c.err != nil})
+			continue
+		}
+		at := "lock"
+		if c.gate != nil {
+			at = "conn"
+		}
+		fly = append(fly, hx.Event{"c": c.id, "s": c.s, "t": c.t, "at": at})
+		keep = append(keep, c)
+	}
+	f.calls = keep
+	return ret, fly
+}
+
+func (f *flights) abort() {
+	f.mu.Lock()
+	f.freeRun = true
+	var w []chan struct{}
+	for _, c := range f.calls {
+		if c.gate != nil {
+			w = append(w, c.gate)
+			c.gate = nil
+		}
+	}
+	f.mu.Unlock()
+	for _, ch := range w {
+		close(ch)
+	}
+}
+
+// probe reads the manager's state; locked = the channel lock is held (by a call parked in its connection check), the
+// reader then stays behind as a blocked goroutine until the lock is released
+func probe(mgr api.ChannelManager) (cm *util.ChannelMapping, views []reader.VerifHandlerView, fm map[string]int, locked bool) {
+	type res struct {
+		cm    *util.ChannelMapping
+		views []reader.VerifHandlerView
+		fm    map[string]int
+	}
+	done := make(chan res, 1)
+	var gid int64
+	go func() {
+		atomic.StoreInt64(&gid, goid())
+		a, b, c := reader.VerifChannelState(mgr)
+		done <- res{a, b, c}
+	}()
+	for i := 0; ; i++ {
+		select {
+		case r := <-done:
+			return r.cm, r.views, r.fm, false
+		case <-time.After(200 * time.Microsecond):
+		}
+		if g := atomic.LoadInt64(&gid); g != 0 && strings.Contains(where(g), "RWMutex") {
+			select { // the answer may have arrived meanwhile
+			case r := <-done:
+				return r.cm, r.views, r.fm, false
+			default:
+			}
+			return nil, nil, nil, true
+		}
+		if i > 40000 {
+			return nil, nil, nil, true
+		}
+	}
+}
+
 var planSeq int64
 
 func names(prefix string, n int) []string {
@@ -124,6 +365,7 @@ func run(p *hx.Plan) []hx.Event {
 	var (
 		evs              []hx.Event
 		mgr              api.ChannelManager
+		cm0              *util.ChannelMapping // the manager's mapping table (pointer obtained once, at init)
 		target           *pfake.Target
 		metaop           *pfake.MetaOp
 		ctx              context.Context
@@ -131,45 +373,97 @@ func run(p *hx.Plan) []hx.Event {
 		sources, targets []string
 		infos            []*pb.CollectionInfo
 		g                = &gates{arrivals: map[string]int{}}
-		announced        = map[string]int{} // v -> number of fwdchecks that announced v
+		fl               = &flights{}
+		announced        = map[string]int{}  // v -> number of fwdchecks that announced v
 		failedKeys       = map[string]bool{} // keys offered by a collection start that failed on a later shard
+		lastWaiting      = []string{}
 		bad              string
 	)
 	quiesce := func() {
-		if err := pfake.WaitQuiescent(8 * time.Second); err != nil && bad == "" {
+		var err error
+		if fl.n() == 0 {
+			err = pfake.WaitQuiescent(8 * time.Second)
+		} else {
+			err = fl.settled(8 * time.Second)
+		}
+		if err != nil && bad == "" {
 			bad = err.Error()
 		}
 	}
-	snapshot := func(ev hx.Event) {
-		cm, views, _ := reader.VerifChannelState(mgr)
-		pairs := []hx.Event{}
-		for _, s := range sources {
-			for _, t := range targets {
-				if cm.CheckKeyExist(s, t) {
-					pairs = append(pairs, hx.Event{"s": s, "t": t})
-				}
-			}
+	// state of the manager; with calls in flight the channel lock may be held by a parked one
+	state := func() (*util.ChannelMapping, []reader.VerifHandlerView, map[string]int, bool) {
+		if fl.n() == 0 {
+			cm, views, fm := reader.VerifChannelState(mgr)
+			return cm, views, fm, false
 		}
+		return probe(mgr)
+	}
+	snapshot := func(ev hx.Event) {
+		ret, fly := fl.reap()
+		_, views, _, locked := state()
+		cm := cm0
+		pairs := []hx.Event{}
 		assigned := map[string]bool{}
 		for _, s := range sources {
 			for _, t := range targets {
 				if cm.CheckKeyExist(s, t) {
+					pairs = append(pairs, hx.Event{"s": s, "t": t})
 					assigned[cm.GetMapKey(s, t)] = true
 				}
 			}
 		}
-		waiting := []string{}
-		for _, h := range views {
-			// a handler created by a collection start that failed afterwards is never started although its pair was
-			// assigned: that is not "waiting for a forwarded channel"
-			if !h.Started && !(failedKeys[h.Key] && assigned[h.Key]) {
-				waiting = append(waiting, h.Key)
+		waiting := lastWaiting
+		if !locked {
+			waiting = []string{}
+			for _, h := range views {
+				// a handler created by a collection start that failed afterwards is never started although its pair was
+				// assigned: that is not "waiting for a forwarded channel"
+				if !h.Started && !(failedKeys[h.Key] && assigned[h.Key]) {
+					waiting = append(waiting, h.Key)
+				}
 			}
+			sort.Strings(waiting)
+			lastWaiting = waiting
 		}
-		sort.Strings(waiting)
 		ev["map"], ev["waiting"] = pairs, waiting
 		ev["avg"], ev["srckey"] = cm.AverageCnt(), cm.UsingSourceKey()
+		ev["ret"], ev["fly"], ev["locked"] = ret, fly, locked
 		evs = append(evs, ev)
+	}
+	// a fresh one-shard collection on (s, t); offerfail: plus a second shard whose stream cannot be opened
+	mkColl := func(op, s, t string) *pb.CollectionInfo {
+		id := int64(100 + len(infos))
+		name := fmt.Sprintf("c%d", id)
+		sv := fmt.Sprintf("%s_%dv0", s, id)
+		tv := fmt.Sprintf("%s_%dv0", t, id+1000)
+		svs, tvs, pcs := []string{sv}, []string{tv}, []string{s}
+		starts := []*commonpb.KeyDataPair{{Key: s, Data: []byte("start-" + sv)}}
+		if op == "offerfail" {
+			svs = append(svs, fmt.Sprintf("zzfail%d_%dv1", id, id))
+			tvs = append(tvs, fmt.Sprintf("zzfail%d_%dv1", id, id+1000))
+			pcs = append(pcs, fmt.Sprintf("zzfail%d", id))
+			starts = append(starts, &commonpb.KeyDataPair{Key: pcs[1], Data: []byte("start-" + svs[1])})
+		}
+		target.Set("default", name, &pfake.TColl{ID: id + 1000, DB: "default", VChannels: tvs, Partitions: map[string]int64{}, Late: map[string]int64{}})
+		metaop.DBOf[id] = model.DatabaseInfo{ID: 1, Name: "default"}
+		metaop.Names[id] = name
+		state := pb.CollectionState_CollectionCreated
+		if op == "offerdropped" {
+			state = pb.CollectionState_CollectionDropped
+			if id%2 == 1 {
+				state = pb.CollectionState_CollectionDropping
+			}
+		}
+		info := &pb.CollectionInfo{ID: id, DbId: 1, Schema: &schemapb.CollectionSchema{Name: name},
+			VirtualChannelNames: svs, PhysicalChannelNames: pcs,
+			StartPositions: starts,
+			State:          state, CreateTime: 1, ShardsNum: int32(len(svs))}
+		infos = append(infos, info)
+		return info
+	}
+	newEvent := func(op string, st map[string]interface{}) hx.Event {
+		return hx.Event{"op": op, "s": hx.S(st, "s"), "t": hx.S(st, "t"), "v": hx.S(st, "v"), "k": hx.S(st, "k"), "c": hx.I(st, "c"),
+			"hsrc": "", "enabled": true, "fwd": false, "inflight": 0}
 	}
 	for i, st := range p.Steps {
 		op := hx.S(st, "op")
@@ -177,8 +471,7 @@ func run(p *hx.Plan) []hx.Event {
 			fmt.Fprintln(os.Stderr, "plan must start with exactly one init step")
 			os.Exit(3)
 		}
-		ev := hx.Event{"op": op, "s": hx.S(st, "s"), "t": hx.S(st, "t"), "v": hx.S(st, "v"), "k": hx.S(st, "k"),
-			"hsrc": "", "enabled": true, "fwd": false, "inflight": 0}
+		ev := newEvent(op, st)
 		switch op {
 		case "init":
 			s, t, nm := hx.I(st, "S"), hx.I(st, "T"), hx.S(st, "names")
@@ -196,7 +489,7 @@ func run(p *hx.Plan) []hx.Event {
 			if err != nil {
 				panic(err)
 			}
-			m, err := reader.NewReplicateChannelManager(pfake.NewDispatch(), &pfake.Factory{FailChannelPrefix: "zzfail"}, target, config.ReaderConfig{
+			m, err := reader.NewReplicateChannelManager(pfake.NewDispatch(), &pfake.Factory{FailChannelPrefix: "zzfail", ConsumeGate: fl.consumeGate}, target, config.ReaderConfig{
 				MessageBufferSize: 64, TTInterval: 3600000, Retry: config.RetrySettings{RetryTimes: 1, InitBackOff: 1, MaxBackOff: 1},
 				SourceChannelNum: s, TargetChannelNum: t, ReplicateID: rid,
 			}, metaop, rm, nil, "milvus")
@@ -205,42 +498,57 @@ func run(p *hx.Plan) []hx.Event {
 			}
 			m.SetCtx(ctx)
 			mgr = m
+			cm0, _, _ = reader.VerifChannelState(mgr)
 			reader.VerifGate = g.gate
-		case "offer", "offerfail":
+		case "offer", "offerfail", "offerdropped":
 			// offerfail: the collection has a second shard (sorted after the first one) whose stream cannot be opened:
 			// startReadChannel of the first shard runs as in "offer", then StartReadCollection fails and undoes what it can
-			id := int64(100 + len(infos))
-			name := fmt.Sprintf("c%d", id)
-			sv := fmt.Sprintf("%s_%dv0", hx.S(st, "s"), id)
-			tv := fmt.Sprintf("%s_%dv0", hx.S(st, "t"), id+1000)
-			svs, tvs, pcs := []string{sv}, []string{tv}, []string{hx.S(st, "s")}
-			starts := []*commonpb.KeyDataPair{{Key: hx.S(st, "s"), Data: []byte("start-" + sv)}}
-			if op == "offerfail" {
-				svs = append(svs, fmt.Sprintf("zzfail%d_%dv1", id, id))
-				tvs = append(tvs, fmt.Sprintf("zzfail%d_%dv1", id, id+1000))
-				pcs = append(pcs, fmt.Sprintf("zzfail%d", id))
-				starts = append(starts, &commonpb.KeyDataPair{Key: pcs[1], Data: []byte("start-" + svs[1])})
+			if fl.n() > 0 {
+				if _, _, _, locked := probe(mgr); locked { // the call would wait for the lock of a parked call for ever
+					ev["enabled"] = false
+					break
+				}
 			}
-			target.Set("default", name, &pfake.TColl{ID: id + 1000, DB: "default", VChannels: tvs, Partitions: map[string]int64{}, Late: map[string]int64{}})
-			metaop.DBOf[id] = model.DatabaseInfo{ID: 1, Name: "default"}
-			metaop.Names[id] = name
-			info := &pb.CollectionInfo{ID: id, DbId: 1, Schema: &schemapb.CollectionSchema{Name: name},
-				VirtualChannelNames: svs, PhysicalChannelNames: pcs,
-				StartPositions: starts,
-				State:          pb.CollectionState_CollectionCreated, CreateTime: 1, ShardsNum: int32(len(svs))}
-			infos = append(infos, info)
+			info := mkColl(op, hx.S(st, "s"), hx.S(st, "t"))
 			err := mgr.StartReadCollection(util.GetCtxWithTaskID(ctx, "task1"), &model.DatabaseInfo{ID: 1, Name: "default"}, info, nil, map[string]uint64{})
 			ev["err"] = err != nil
 			if op == "offerfail" {
-				if cm, _, _ := reader.VerifChannelState(mgr); cm != nil {
-					failedKeys[cm.GetMapKey(hx.S(st, "s"), hx.S(st, "t"))] = true
-				}
+				failedKeys[cm0.GetMapKey(hx.S(st, "s"), hx.S(st, "t"))] = true
 			}
 			quiesce()
+		case "offerstart":
+			info := mkColl(op, hx.S(st, "s"), hx.S(st, "t"))
+			c := &call{id: hx.I(st, "c"), s: hx.S(st, "s"), t: hx.S(st, "t")}
+			started := make(chan struct{})
+			fl.mu.Lock()
+			fl.calls = append(fl.calls, c)
+			fl.mu.Unlock()
+			go func() {
+				atomic.StoreInt64(&c.gid, goid())
+				atomic.StoreInt32(&c.phase, 1)
+				close(started)
+				c.err = mgr.StartReadCollection(util.GetCtxWithTaskID(ctx, "task1"), &model.DatabaseInfo{ID: 1, Name: "default"}, info, nil, map[string]uint64{})
+				atomic.StoreInt32(&c.phase, 2)
+			}()
+			<-started
+			quiesce()
+		case "connect":
+			c := fl.get(hx.I(st, "c"))
+			if c == nil || !fl.release(c) {
+				ev["enabled"] = false
+				break
+			}
+			quiesce()
+		case "acquire":
+			// nothing to do: a queued call took the lock in the step that released it
 		case "fwdcheck":
 			v := hx.S(st, "v")
 			ev["inflight"] = announced[v] - g.count("handoff", v) // announcements of v blocked in the send before this step
-			_, _, fm0 := reader.VerifChannelState(mgr)
+			_, _, fm0, locked := state()
+			if locked {
+				ev["enabled"] = false
+				break
+			}
 			pk := g.take("fwdcheck", v, nil)
 			if pk == nil {
 				ev["enabled"] = false
@@ -248,14 +556,19 @@ func run(p *hx.Plan) []hx.Event {
 			}
 			close(pk.ch)
 			quiesce()
-			_, _, fm1 := reader.VerifChannelState(mgr)
-			if fm1[v] > fm0[v] {
+			if _, _, fm1, locked := state(); !locked && fm1[v] > fm0[v] {
 				ev["fwd"] = true
 				announced[v]++
 			}
 		case "handoff":
 			v, k := hx.S(st, "v"), hx.S(st, "k")
-			cm, _, _ := reader.VerifChannelState(mgr)
+			if fl.n() > 0 {
+				if _, _, _, locked := probe(mgr); locked {
+					ev["enabled"] = false
+					break
+				}
+			}
+			cm := cm0
 			pk := g.take("handoff", v, func(q *parked) bool { return cm.GetMapKey(q.args[1], q.args[2]) == k })
 			if pk == nil {
 				ev["enabled"] = false
@@ -274,7 +587,30 @@ func run(p *hx.Plan) []hx.Event {
 			break
 		}
 	}
+	// every call returns in the end: the connection checks of the calls still in flight return one at a time
+	for n := 0; bad == "" && fl.n() > 0; n++ {
+		var c *call
+		fl.mu.Lock()
+		for _, x := range fl.calls {
+			if x.gate != nil && (c == nil || x.id < c.id) {
+				c = x
+			}
+		}
+		fl.mu.Unlock()
+		if c == nil || n > 64 {
+			evs = append(evs, hx.Event{"op": "machinery", "what": "calls in flight, none of them in its connection check"})
+			break
+		}
+		ev := newEvent("settle", map[string]interface{}{"c": c.id})
+		fl.release(c)
+		quiesce()
+		snapshot(ev)
+		if bad != "" {
+			evs = append(evs, hx.Event{"op": "machinery", "what": bad})
+		}
+	}
 	// tear-down: everything parked runs to completion, streams and barriers are closed
+	fl.abort()
 	g.abort()
 	_ = pfake.WaitQuiescent(3 * time.Second)
 	if mgr != nil {
